@@ -39,5 +39,11 @@ def run(tier, seed):
                                'Costello-Lauter coordinates are only exercised on full-degree divisors and the identity (documented restriction of HCDivisorCL)',
                                'primality of 250..450-bit group orders: Miller-Rabin with the first 46 primes as bases',
                                'published curve constants (group orders, field primes) are typed into the contract file from RFC 8032, SEC 2 and the BN paper',
+                               '"generator has the declared order" is demanded exactly (g^(order/r) != identity for every prime r | order) where the module declares the order of the '
+                               'generator: QR modulo safe primes (bit length given, or explicit safe p), Schnorr groups, the built-in elliptic curves, hyperelliptic curves with a declared '
+                               'order; for explicit non-safe QR moduli and for class groups `order` is the order of the group and the generator only generates a subgroup (documented): '
+                               'generator^order = identity is demanded there',
+                               'hash is not part of the property: equal points must hash equally only after normalize() (documented unique representation) and for identical representations',
+                               'encode/decode on BN256_twist (curve over GF(p^2)): encode is documented as not available over non-prime fields; TypeError or a correct round trip is demanded',
                                'Schnorr decode is only required for m < 1024 (documented search bound); QR / EC / HC / class group messages must satisfy the stated size bounds'],
                   trusted_base=['CPython 3.12 int arithmetic, pow(a, -1, p), tuples', 'math.gcd, math.isqrt, math.lcm, itertools (oracle side)'])
